@@ -489,6 +489,15 @@ impl ActionProvider for ListChangeType {
     }
 }
 
+/// every item of the list has text to make a heading of (an item that starts with a code block,
+/// quote, rule or table has none)
+fn items_have_text(tree: &Tree, list_id: NodeId) -> bool {
+    tree.get(list_id)
+        .children
+        .iter()
+        .all(|item| !matches!(&item.node, Node::Section(inlines) if inlines.is_empty()))
+}
+
 pub struct ListToSections {}
 impl ActionProvider for ListToSections {
     fn identifier(&self) -> String {
@@ -497,9 +506,9 @@ impl ActionProvider for ListToSections {
 
     fn action(&self, target_id: NodeId, context: impl ActionContext) -> Option<Action> {
         let key = &context.key_of(target_id);
-        context
-            .collect(&key)
-            .get_top_level_surrounding_list_id(target_id)
+        let tree = context.collect(&key);
+        tree.get_top_level_surrounding_list_id(target_id)
+            .filter(|scope_id| items_have_text(&tree, *scope_id))
             .map(|_| Action {
                 title: "List to sections".to_string(),
                 identifier: self.identifier(),
@@ -509,9 +518,9 @@ impl ActionProvider for ListToSections {
 
     fn changes(&self, target_id: NodeId, context: impl ActionContext) -> Option<Changes> {
         let key = &context.key_of(target_id);
-        context
-            .collect(&key)
-            .get_top_level_surrounding_list_id(target_id)
+        let tree = context.collect(&key);
+        tree.get_top_level_surrounding_list_id(target_id)
+            .filter(|scope_id| items_have_text(&tree, *scope_id))
             .map(|scope_id| {
                 vec![Change::Update(Update {
                     key: key.clone(),
